@@ -123,6 +123,7 @@ static volatile unsigned long long mc_wd_last = ~0ULL;
 static volatile int mc_wd_strikes = 0;
 static volatile unsigned long long mc_alive = 0;      /* bumped by long harness-internal loops (hash-table rebuilds ...) that run no case */
 static volatile double mc_wd_cpu0 = 0;
+static volatile int mc_wd_pause = 0;                  /* set around one long uninterruptible harness operation (realloc of a multi-GB state table) */
 static int mc_dying = 0;
 
 static void mc_emit_crash(const char * kind) {
@@ -155,6 +156,7 @@ static double mc_cpu_now(void) { struct timespec ts; clock_gettime(CLOCK_PROCESS
 static void mc_on_alarm(int sig) {
     unsigned long long now = mc_idx + mc_alive;
     (void) sig;
+    if (mc_wd_pause) { mc_wd_cpu0 = mc_cpu_now(); return; }
     if (mc_wd_last == now) {
         ++mc_wd_strikes;
         if (mc_cpu_now() - mc_wd_cpu0 >= 20.0) {
